@@ -166,6 +166,66 @@ def run():
                 'radius_helper_sq' in str(F2.inlined.get('radius_via_helper')), '%r vs %r' % (e1, e2)))
     e3 = ExprBuilder(F.one('radius_via_helper')).place(0, ())
     res.append(('P10 baseline helpers are not inlined', 'radius_helper_sq' in repr(e3), repr(e3)))
+    res += unit_controls()
+    return res
+
+
+def unit_controls():
+    """controls of the normalisation layer that need no compiler: canonical names, impl paths, reference forwarding"""
+    import canon
+    import inliner
+    res = []
+    ref = {'m::Commands': {'kind': 'Enum', 'variants': [
+        {'name': 'Drop', 'built_in': ['drop'], 'fields': [{'name': '0', 'ty': 'chan::Sender<m::Results>'}]},
+        {'name': 'Find', 'built_in': ['find_usable'], 'fields': [{'name': '0', 'ty': 'chan::Sender<m::Results>'}]},
+        {'name': 'Merge', 'built_in': ['merge'], 'fields': [{'name': '0', 'ty': 'u64'}, {'name': '1', 'ty': 'bool'}]}]},
+        'm::Store': {'kind': 'Struct', 'variants': [{'name': 'Store', 'built_in': [], 'fields': [
+            {'name': 'stores', 'ty': 'std::sync::Arc<Vec<m::Shard>>'}, {'name': 'num', 'ty': 'usize'}]}]}}
+    hdr = {'adts': [
+        {'path': 'm::exec::Request', 'kind': 'Enum', 'variants': [
+            {'name': 'Merge', 'fields': [{'name': '0', 'ty': 'u64'}, {'name': '1', 'ty': 'bool'}]},
+            {'name': 'Shutdown', 'fields': [{'name': '0', 'ty': 'chan::Sender<m::Results>'}]},
+            {'name': 'Usable', 'fields': [{'name': '0', 'ty': 'chan::Sender<m::Results>'}]}]},
+        {'path': 'm::Store', 'kind': 'Struct', 'variants': [{'name': 'Store', 'fields': [
+            {'name': 'num', 'ty': 'usize'}, {'name': 'shards', 'ty': 'std::sync::Arc<Vec<m::Shard>>'}]}]}]}
+    lines = ['{"path":"m::Store::drop","x":[{"k":"agg","ak":"adt","adt":"m::exec::Request","v":"Shutdown","fields":["0"]}]}',
+             '{"path":"m::Store::find_usable","x":[{"k":"agg","ak":"adt","adt":"m::exec::Request","v":"Usable","fields":["0"]}]}']
+    c = canon.Canon(hdr, ref, [], lines)
+    res.append(('N1 renamed + moved enum is matched by structure', c.adt_pairs.get('m::exec::Request') == 'm::Commands',
+                str(c.adt_pairs)))
+    res.append(('N1 equal-payload variants are told apart by their constructors',
+                c.variant.get(('m::Commands', 'Shutdown')) == 'Drop' and c.variant.get(('m::Commands', 'Usable')) == 'Find',
+                str(c.variant)))
+    res.append(('N1 renamed field is matched by its type', c.field.get(('m::Store', 'Store', 'shards')) == 'stores' and
+                ('m::Store', 'Store', 'num') not in c.field, str(c.field)))
+    body = {'st': [{'k': 'assign', 'lhs': {'l': 3, 'p': [{'dc': 'Usable'}, {'f': 0, 'n': '0', 'adt': 'm::exec::Request',
+                                                                           'v': 'Usable'}]},
+                    'rv': {'k': 'discr', 'pl': {'l': 3, 'p': []}, 'ty': 'm::exec::Request<T>',
+                           'variants': [['0', 'Merge'], ['1', 'Shutdown'], ['2', 'Usable']]}}]}
+    mir.install_relocations(c.renamed_types())
+    c.apply(body)
+    st = body['st'][0]
+    res.append(('N1 projections, downcasts and discriminant tables are renamed', st['lhs']['p'][0] == {'dc': 'Find'} and
+                st['lhs']['p'][1]['v'] == 'Find' and [n for _i, n in st['rv']['variants']] == ['Merge', 'Drop', 'Find'],
+                str(st)[:200]))
+    res.append(('N1 renamed type path is read under its reference name', mir.norm('m::exec::Request::handle') ==
+                'm::Commands::handle', mir.norm('m::exec::Request::handle')))
+    mir.install_relocations([])
+    res.append(('N2 impl block moved to a foreign module keeps its canonical path',
+                mir.norm('utils::bbox::metrics::<impl track::Attrs<A> for utils::bbox::Box2D>::metric::{closure#0}') ==
+                '<utils::bbox::Box2D as track::Attrs>::metric::{closure#0}' and
+                mir.norm('trackers::m::scoring::<impl trackers::m::Metric>::score') == 'trackers::m::Metric::score' and
+                mir.norm('core::slice::<impl [T]>::sort_by') == 'core::slice::sort_by', ''))
+    d = {'nargs': 1, 'locals': ['()', '&mut S', '&mut T', '&mut T', 'T'], 'blocks': [{'cleanup': False, 'st': [
+        {'k': 'assign', 'lhs': {'l': 2, 'p': []}, 'rv': {'k': 'ref', 'mut': True, 'pl': {'l': 1, 'p': [
+            '*', {'f': 0, 'n': 'attrs', 'adt': 'S', 'v': 'S'}]}}},
+        {'k': 'assign', 'lhs': {'l': 3, 'p': []}, 'rv': {'k': 'use', 'op': {'k': 'move', 'pl': {'l': 2, 'p': []}}}},
+        {'k': 'assign', 'lhs': {'l': 3, 'p': ['*']}, 'rv': {'k': 'use', 'op': {'k': 'move', 'pl': {'l': 4, 'p': []}}}}],
+        't': {'k': 'return'}}]}
+    inliner.forward_refs(d)
+    w = d['blocks'][0]['st'][2]['lhs']
+    res.append(('N3 a write through `&mut self.field` is the field write', w['l'] == 1 and w['p'][0] == '*' and
+                w['p'][1].get('n') == 'attrs', str(w)))
     return res
 
 
